@@ -54,12 +54,35 @@ def gen_line(rng):
         if not zeno(st):
             break
     horizon = rng.choice([5, 10, 17.5, 30, 60, 100, 300])
+    if st[0]['budget'] is not None and st[0]['budget'] <= 7 and rng.random() < 0.5:
+        # part-budget top-ups: from a user event at T, or by ordinary code between two simulate() calls split at T;
+        # aimed at the interval in which the exhausted source is still making its spare part
+        tops = []
+        t_ex = st[0]['budget'] * max(st[0]['ct'], 0.125)
+        for _ in range(rng.choice([1, 1, 2])):
+            T = rng.choice([t_ex, t_ex + st[0]['ct'] / 2.0, t_ex + st[0]['ct'], t_ex + 0.125,
+                            rng.randrange(1, 160) / 8.0, rng.randrange(1, 160) / 8.0])
+            T = int(T * 8) / 8.0
+            if 0 < T < horizon:
+                tops.append([T, rng.choice([1, 2, 3, 5])])
+        if tops:
+            st[0]['topups'] = sorted(tops)
+            st[0]['topup_mode'] = rng.choice(['event', 'between'])
     # keep event counts bounded
     rate = max(0.125, max(s.get('ct', 0) for s in st))
     if horizon / rate * len(st) > 6000:
         horizon = max(5, min(horizon, 6000 * rate / len(st)))
         horizon = int(horizon * 8) / 8.0
     return {'stations': st, 'horizon': horizon}
+
+
+class TopUp:
+    def __init__(self, src, m):
+        self.src, self.m = src, m
+        self.__name__ = 'top_up'
+
+    def __call__(self):
+        self.src.adjust_part_count(self.m)
 
 
 def run_line(line, tie, tie_seed):
@@ -88,7 +111,16 @@ def run_line(line, tie, tie_seed):
                 d = Sink(name=nm, upstream=[prev], cycle_time=s['ct'])
             devs.append(d)
             prev = d
-        system.simulate(line['horizon'], print_summary=False)
+        tops = line['stations'][0].get('topups') or []
+        if tops and line['stations'][0].get('topup_mode') == 'event':
+            for T, m in tops:
+                system.env.schedule_event(T, devs[0].id, TopUp(devs[0], m), 5 + (m % 3) * 10)
+            tops = []
+        for T, m in tops:
+            if T > system.env.now:
+                system.simulate(T - system.env.now, print_summary=False)
+            devs[0].adjust_part_count(m)
+        system.simulate(line['horizon'] - system.env.now, print_summary=False)
     data = system.simulation_data
     obs = {}
     for j in range(1, len(devs)):
